@@ -181,6 +181,7 @@ def ctrlP (c : Cfg) (W : State → State) : CtrlPrims State Exc Job Job Dest whe
     | some j => M.modify fun s => startRun s j
     | none => M.raise .other
   tasksNonEmpty s := !s.runs.isEmpty
+  dataTruthy j := !j.data.empty
   gatherTasks := M.modify W
 
 /-- the item the controller holds is still "queued first" for the model -/
